@@ -147,7 +147,13 @@ class Check(PropertyCheck):
                     i = r.choice([0, len(rows) - 1])
                     x = rows[i] if rows[i].strip() else "+"
                     rows[i] = (x[:-1] + " ") if r.chance(1, 2) else (" " * (len(x) - len(x.lstrip()) + 1) + x.lstrip()[1:])
-            out.append(gen.place("\n".join(x.rstrip() for x in rows), r.below(6), r.below(3)))
+            art = "\n".join(x.rstrip() for x in rows)
+            if r.chance(1, 8):
+                # far from the origin: where a narrower integer type wraps and a float tolerance exceeds the grid pitch
+                far = r.choice(gen.FAR + [50000, 150000, 250000]) + r.below(3)
+                out.append(gen.place(art, far, 0) if r.chance(1, 2) else gen.place(art, r.below(3), far))
+            else:
+                out.append(gen.place(art, r.below(6), r.below(3)))
         out += ["+--+\n|  |\n+--+\n|  |", "+--+-\n|  |\n+--+-", "|  |\n+--+\n|  |\n+--+", "-+--+\n |  |\n-+--+"]
         return out
 
